@@ -47,6 +47,15 @@ def gen_case(rng):
         if rng.random() < 0.1:
             for cs in spec["checks"]:
                 cs["ignoreNa"] = False
+    # defaults on present columns (required or optional), with a missing value to fill now and then
+    by = {col["name"]: col for col in D["cols"]}
+    for spec in S["columns"]:
+        if spec["dtype"] in A.POOL and spec["name"] in by and by[spec["name"]]["dtype"] == spec["dtype"] and rng.random() < 0.2:
+            spec["default"] = rng.choice(A.POOL[spec["dtype"]])
+            if rng.random() < 0.5:
+                spec["required"] = False
+            if A.can_null(spec["dtype"]) and D["nrows"] and rng.random() < 0.8:
+                by[spec["name"]]["vals"][rng.randrange(D["nrows"])] = A.NULL
     c["opts"] = {}
     return c
 
@@ -102,7 +111,7 @@ def observe_polars(S, D):
     with warnings.catch_warnings():
         warnings.simplefilter("ignore")
         try:
-            schema = PA.schema_of(S, coerce=S["coerce"])
+            schema = PA.schema_of(S, with_defaults=True, coerce=S["coerce"])
             df = PA.frame_of(D)
         except Exception as e:  # noqa: BLE001
             return {"verdict": "unbuildable:" + type(e).__name__}
@@ -204,7 +213,7 @@ def run_cases(rep, cases):
     spec_cases, idx = [], []
     for i, c in enumerate(cases):
         S = c["schema"]
-        if not (S["coerce"] or any(s["coerce"] for s in S["columns"]) or S["strict"] == "filter"):
+        if not (S["coerce"] or any(s["coerce"] or s.get("default") is not None for s in S["columns"]) or S["strict"] == "filter"):
             spec_cases.append({"mode": "validate", "schema": S, "frame": c["frame"]})
             idx.append(i)
     sat = {}
@@ -265,7 +274,10 @@ def builtin_sweep(rep, rng, n):
         cs = A.gen_check(rng, dtype)
         cs["ignoreNa"] = rng.random() < 0.8
         vals = list(A.POOL[dtype]) + ([A.NULL] if A.can_null(dtype) else [])
-        case = {"mode": "builtin", "b": cs["b"], "ignoreNa": cs["ignoreNa"], "dtype": dtype}
+        if dtype == "str":     # characters of 2, 3 and 4 utf-8 bytes: lengths count characters on both backends
+            vals += [A.vstr(x) for x in ("é", "日本", "añb", "😀", "ab😀")]
+        case = {"mode": "builtin", "b": cs["b"], "ignoreNa": cs["ignoreNa"], "dtype": dtype,
+                "values": [A.to_py(v) for v in vals] if dtype == "str" else None}
         with warnings.catch_warnings():
             warnings.simplefilter("ignore")
             try:
